@@ -27,6 +27,11 @@ pub fn check(t: &Trace<'_>, out: &mut CaseOut) -> bool {
                 1
             };
             out.count("probes_compared", 1);
+            // the retained list is no longer in identifier order (the counter wrapped with older
+            // operations outstanding) and this handle is still pending
+            if want == 1 && p.snap.as_ref().is_some_and(|s| s.tx.retained.windows(2).any(|w| w[0].packet_id > w[1].packet_id)) {
+                out.count("probes_after_identifier_wrap", 1);
+            }
             if st.count_ones() != 1 {
                 out.violations.push(viol("C18", "C18/status/not-exactly-one", format!("handle {} (op#{} {} id {}): status bits {:#05b} at event {}", h, msg.op, msg.kind, msg.pid, st, ev)));
             } else if *st != want {
